@@ -79,6 +79,17 @@ def tableC20 : List (String × Rd String) := [
   ("empirical.range", do
     let _ ← Wire.next; let xs ← rdL rdF
     pure (match Empirical.new? xs with | none => "PANIC" | some e => wr2 e.range)),
+  -- the three public constructors (`new`, `from_params` on an arbitrary parameter vector, `emit_params ∘ from_params`)
+  ("empirical.queries", do
+    let _ ← Wire.next; let ctor ← Wire.next; let xs ← rdL rdF; let qs ← rdL rdF
+    let e? : Option (Gen.Empirical Float) :=
+      if ctor == "new" then Empirical.new? xs
+      else if ctor == "from_params" then Empirical.fromParams? { xs := xs }
+      else (Empirical.new? xs).bind (fun e => Empirical.fromParams? (Gen.Empirical.emit_params e))
+    pure (match e? with
+      | none => "PANIC"
+      | some e => String.intercalate " " [wrL wrF (qs.map (Empirical.cdf e)), wrO wrF (Gen.Empirical.mean_real e),
+          wrO wrF (Gen.Empirical.variance_real e), wr2 e.range])),
   ("mardia", do
     let _ ← Wire.next; let n ← rdN; let d ← rdN; let data ← rdL rdF
     let xs := if d = 0 then List.replicate n [] else rows d data
